@@ -4,6 +4,7 @@ bounded soundly:  trig generators of small arguments are replaced by their
 Taylor polynomial plus a *bounded remainder variable* (A-TAYLOR), then
 |sum c_m x^m| <= sum |c_m| prod bound(x_i)^e_i  (monomial-wise interval bound).
 """
+import os
 from fractions import Fraction
 import math
 
@@ -101,6 +102,34 @@ def decision_facts(c):
                         up(rn, _root_up(const, k))
                     if const < 0 and alg.is_zero(rest - R ** k):
                         lo(rn, _root_down(-const, k))
+                # e == c1 - lam * R^2 with R^2 = rarg a polynomial in the inputs (e.g. 4 - 4 w^2)
+                q = alg.nf(rarg)
+                en = alg.nf(e)
+                pick = [m for m in q.keys() if sum(m)]
+                if pick and not q.is_ground:
+                    m0 = pick[0]
+                    lam = -_fr(en.get(m0, 0)) / _fr(q[m0]) if m0 in en else None
+                    if lam:
+                        dd = en + q * alg.const(lam)
+                        if dd.is_ground:
+                            c1 = _const_term(dd)       # e = c1 - lam * R^2  (>= 0)
+                            if lam > 0 and c1 > 0:
+                                up(rn, _root_up(c1 / lam, 2))
+                            if lam < 0 and c1 < 0:
+                                lo(rn, _root_down(c1 / lam, 2))
+    # sin a <= s on a first-quadrant angle a (A-TRIG quadrant facts: sin a >= 0, cos a > 0 were derived from the
+    # contract 0 <= a < pi/2):  a <= pi s / 2 =: a1 (Jordan),  then a <= s / (1 - a1^2/6)  (sin a >= a - a^3/6)
+    names = list(alg.gen.keys())
+    for (sn, cn) in alg.trig_gens:
+        if sn in upper and upper[sn] <= Fraction(1, 2) and alg.sign.get(sn) == "nonneg" and alg.sign.get(cn) == "pos":
+            a = alg.gen_atom[sn][0].args[0]
+            if len(a) == 1:
+                (mon, coef), = a.items()
+                if sum(mon) == 1 and coef > 0:
+                    g = names[list(mon).index(1)]
+                    sb = upper[sn]
+                    a1 = Fraction(15708, 10000) * sb
+                    up(g, sb / (1 - a1 * a1 / 6) / _fr(coef))
     # propagate an upper bound of R = sqrt(sum a_i v_i^2) to the v_i
     for (rn, rarg) in sqrt_gens:
         if rn in upper:
@@ -114,6 +143,38 @@ def decision_facts(c):
 
 def decision_bounds(c):
     return decision_facts(c)[0]
+
+
+EPS = Fraction(25, 2 ** 50)          # Constants<double>::eps
+SQE = Fraction(5, 2 ** 25)           # its square root
+_LCAND = [Fraction(1, 2), Fraction(1, 16), SQE, SQE / 2, SQE / 8, EPS / 4, EPS / 16, EPS / 64]
+
+
+def z3_abs_lower(c, f):
+    """largest candidate L with  path condition |= |f| >= L  (z3, inverse relations dropped), or None.
+    Each answer is an INEQ fact discharged by z3 and cached per path context."""
+    cache = c.__dict__.setdefault("_lb_cache", {})
+    key = str(f)
+    if key in cache:
+        return cache[key]
+    from engine import smt
+    best = None
+    try:
+        z = smt.Z3Ctx(c.alg, 3000)
+        dec = z.decisions(c.path)
+        e = z.expr(f)
+        base = z.base_constraints(c.extra_facts_z3(z), without_inverses=True) + dec
+        t0 = 0.0
+        for L in reversed(_LCAND):       # smallest first: if even that fails, give up at once
+            r, model, dt = z.check(base + [e < smt.z3.Q(L.numerator, L.denominator), e > -smt.z3.Q(L.numerator, L.denominator)])
+            t0 += dt
+            if r != "unsat":
+                break
+            best = L
+    except Exception:
+        best = None
+    cache[key] = best
+    return best
 
 
 def gen_bounds(c, scale):
@@ -175,6 +236,10 @@ def gen_bounds(c, scale):
             for gname, lb in lowers.items():
                 if f == alg.gen[gname] and lb > 0:
                     val = 1 / lb
+            if val is None and getattr(c, "taylor_tau", None) is not None:
+                lb = z3_abs_lower(c, f)
+                if lb:
+                    val = 1 / lb
         elif k == "atan2":
             val = Fraction(355, 113) + Fraction(1, 1000)
         if name in db and (val is None or db[name] < val):
@@ -194,6 +259,74 @@ def _rot_names(sp, names):
     idx = {"SO2": [0, 1], "SE2": [2, 3], "SO3": [0, 1, 2, 3], "SE3": [3, 4, 5, 6], "SE_2_3": [3, 4, 5, 6],
            "SGal3": [3, 4, 5, 6]}.get(sp.name, [])
     return set(names[i] for i in idx)
+
+
+def _rot_blocks(sp, names):
+    if hasattr(sp, "elems"):
+        out = []
+        for o, e in zip(sp.offsets("rep"), sp.elems):
+            out += _rot_blocks(e, names[o:o + e.rep])
+        return out
+    idx = {"SO2": [0, 1], "SE2": [2, 3], "SO3": [0, 1, 2, 3], "SE3": [3, 4, 5, 6], "SE_2_3": [3, 4, 5, 6],
+           "SGal3": [3, 4, 5, 6]}.get(sp.name, [])
+    return [[names[i] for i in idx]] if idx else []
+
+
+def _path_sign(c, name):
+    """+1 / -1 when the path condition fixes the sign of input variable `name` (non-strictly), else None"""
+    alg = c.alg
+    g = alg.gen[name]
+    for d in c.path.decisions:
+        if d.rel != "lt":
+            continue
+        e = alg.nf(alg.P(d.b) - alg.P(d.a))
+        if not d.val:
+            e = -e
+        if e == g:
+            return 1
+        if e == -g:
+            return -1
+    return None
+
+
+def near_unit_shifts(c, p, bounds):
+    """A unit-norm rotation block whose other coefficients are confined to a small ball has its remaining
+    coefficient w within s = sum u_i^2 of +1 or -1 (|w| = sqrt(1 - sum v_i^2) in [1 - s, 1]); with the sign
+    fixed by the path condition,  w = sign * (1 - U),  0 <= U <= s.  Returns p with w replaced so."""
+    from engine.alg import Atom
+    alg = c.alg
+    db = decision_bounds(c)
+    subs = []
+    cache = c.__dict__.setdefault("_unit_shift_cache", {})
+    for i in c.inputs:
+        if i.kind != "G":
+            continue
+        try:
+            blocks = _rot_blocks(i.spec, i.names())
+        except Exception:
+            continue
+        for blk in blocks:
+            for w in blk:
+                others = [n for n in blk if n != w]
+                if not all(n in db for n in others) or not alg.uses_gens(p, [w]):
+                    continue
+                sm = sum(db[n] ** 2 for n in others)
+                if sm > Fraction(1, 4):
+                    continue
+                sg = _path_sign(c, w)
+                if sg is None:
+                    continue
+                if w not in cache:
+                    U = alg.new_gen(("unit_shift", w))
+                    alg.gen_atom[U] = (Atom("taylor_rem", (U,), (alg.gen[w],), sm), "rem")
+                    cache[w] = U
+                U = cache[w]
+                alg.gen_atom[U][0].info = sm
+                bounds[U] = sm
+                subs.append((alg.gen[w], alg.const(sg) * (alg.R.one - alg.gen[U])))
+    if subs:
+        p = p.compose(subs)
+    return p
 
 
 def poly_bound(alg, p, bounds):
@@ -247,8 +380,74 @@ def expand_trig(c, p, bounds):
         subs.append((alg.gen[sn], S))
         subs.append((alg.gen[cn], Cc))
     if subs:
+        subs = subs + _inverse_trig_subs(c, p, subs, bounds)
+        # size guard: a generator of exponent e replaced by an n-term polynomial multiplies the term count by ~n^e
+        names = list(alg.gen.keys())
+        width = {str(g): len(q) for (g, q) in subs}
+        est = 0
+        for mon in p:
+            t = 1
+            for i, e in enumerate(mon):
+                if e and names[i] in width:
+                    t *= width[names[i]] ** e
+            est += t
+            if est > 60000:
+                raise EngineError("Taylor expansion too large (more than 60000 terms before reduction)")
         p = alg.nf(p.compose(subs))
     return p
+
+
+def _inverse_trig_subs(c, p, subs, bounds):
+    """Laurent step.  An inverse generator I_f whose base f contains expanded trig generators:
+    with f' = f[Taylor] = c0 * M * (1 - delta)   (M a monomial in generators, |delta| <= 1/2)
+       1/f = (1/c0) * (1/M) * K,   K = 1/(1 - delta) = 1 + delta + delta^2 * K   (exact),
+    K a new generator bounded by 1/(1 - bound(delta)).  The inverse monomial 1/M is expressed with
+    the inverse generators of its factors, so that inverse powers of the angle cancel in the normal form."""
+    from engine.alg import Atom
+    alg = c.alg
+    R = alg.R
+    names = list(alg.gen.keys())
+    expanded = [str(g) for (g, _) in subs]
+    out = []
+    cache = c.__dict__.setdefault("_taylor_inv_cache", {})
+    for (base, iname) in list(alg.inv_gens):
+        if not alg.uses_gens(p, [iname]) or not alg.uses_gens(base, expanded):
+            continue
+        fb = base.compose(subs)
+        if fb.is_zero or len(fb) > 200:
+            continue
+        mons = list(fb.keys())
+        mins = [min(m[i] for m in mons) for i in range(len(names))]
+        M = R.one
+        for i, e in enumerate(mins):
+            if e:
+                M = M * alg.gen[names[i]] ** e
+        rho = R.zero
+        for m, coef in fb.items():
+            rho = rho + R.term_new(tuple(a - b for a, b in zip(m, mins)), coef)
+        c0 = _const_term(rho)
+        if c0 == 0:
+            continue
+        delta = (alg.const(c0) - rho) * alg.const(1 / c0)
+        db = poly_bound(alg, delta, bounds)
+        if db is None or db > Fraction(1, 2):
+            continue
+        if iname not in cache:
+            nsafe = len(alg.safe_obligations)
+            IM = R.one
+            for i, e in enumerate(mins):
+                if e:
+                    IM = IM * alg.inverse(alg.gen[names[i]]) ** e
+            del alg.safe_obligations[nsafe:]      # M != 0 is implied by f != 0, which is already an obligation
+            K = alg.new_gen(("taylor_inv", base))
+            alg.gen_atom[K] = (Atom("taylor_rem", (K,), (base,), Fraction(2)), "rem")
+            cache[iname] = (IM, K)
+        IM, K = cache[iname]
+        kb = 1 / (1 - db)
+        alg.gen_atom[K][0].info = kb
+        bounds[K] = kb
+        out.append((alg.gen[iname], alg.const(1 / c0) * IM * (R.one + delta + delta * delta * alg.gen[K])))
+    return out
 
 
 def try_bound(c, res, tau):
@@ -256,6 +455,9 @@ def try_bound(c, res, tau):
     alg = c.alg
     info = {}
     if not decision_bounds(c):
+        if os.environ.get("VERIF_TAYLOR_DEBUG"):
+            import sys
+            sys.stderr.write("NOBALL %s\n" % c.path.key)
         return False, {"taylor": "path has no small-ball condition"}
     worst = None
     for scale in SCALES:
@@ -266,10 +468,33 @@ def try_bound(c, res, tau):
             return False, {"taylor": str(e)}
         bounds = gen_bounds(c, scale)
         bnd = poly_bound(alg, p, bounds)
+        if bnd is not None and bnd > Fraction(tau) * scale:
+            p = near_unit_shifts(c, p, bounds)
+            bnd = poly_bound(alg, p, bounds)
         if bnd is None:
+            if os.environ.get("VERIF_TAYLOR_DEBUG"):
+                names = list(alg.gen.keys())
+                used = set()
+                for mon in p:
+                    for i, e in enumerate(mon):
+                        if e and bounds.get(names[i]) is None:
+                            used.add(names[i])
+                import sys
+                for u in sorted(used):
+                    at = alg.gen_atom.get(u, (None, None))[0]
+                    sys.stderr.write("UNBOUNDED %s %s %s | %s\n" % (c.path.key, u, at.kind if at else "var", str(at.args[0])[:200] if at else ""))
             return False, {"taylor": "residual involves an unbounded generator (e.g. an inverse power of the angle)"}
         info["bound_scale_%g" % scale] = float(bnd)
         if bnd > Fraction(tau) * scale:
+            if os.environ.get("VERIF_TAYLOR_DEBUG"):
+                import sys
+                sys.stderr.write("ABOVE %s scale %g bound %.3g terms %d\n" % (c.path.key, scale, float(bnd), len(p)))
+                if len(p) <= 8:
+                    sys.stderr.write("   P = %s\n" % str(p)[:400])
+                    names = list(alg.gen.keys())
+                    for nm in sorted(set(names[i] for mon in p for i, e in enumerate(mon) if e)):
+                        at = alg.gen_atom.get(nm, (None, None))[0]
+                        sys.stderr.write("   %s bound %s %s %s\n" % (nm, float(bounds[nm]) if bounds.get(nm) is not None else None, at.kind if at else "var", [str(a)[:100] for a in at.args] if at else ""))
             return False, info
     return True, info
 
